@@ -7,36 +7,44 @@ import GrassProofs.Lemmas.ValueMap
   C09 — Equality is an equivalence consistent with !=, map keys and index().
 
   `veq sw` is the model of `Value::eq` (Grass/Value.lean); `sw : Sw` selects the variant:
-    `Sw.now`    the code as it stands in /repo,
-    `Sw.spec`   what the property demands (numbers always compared in the canonical unit of their
-                kind; an argument list compared as the plain comma list of its positional elements;
-                `map-remove` removing exactly the keys `==` to the probe),
-    `Sw.pinned` the tree as first found (D6, D20 — both fixed in /repo since).
-  Every theorem is stated for an arbitrary `sw` with `sw.canon = true` (so for `now` and `spec`
-  alike) on the values `inScope sw` admits: everything for `spec`; for `now`, values without
-  argument lists whose convertible numbers carry the canonical unit (px, deg, s, Hz, dppx).  Outside
-  that scope the code as it stands violates the property: the `C09_asFound_now_…` theorems are
-  kernel-checked witnesses (K1–K4, open findings recorded in known-findings.d/C09.json), the
-  `C09_asFound_pinned_…` theorems those of the two defects already fixed.
+    `Sw.now`       the code as it stands in /repo — since the repairs 312c562 (K1), d046d73 (K2),
+                   61f3ffb (K4) it coincides with `Sw.spec`, what the property demands: numbers
+                   always compared in the canonical unit of their kind; an argument list compared
+                   as the plain comma list of its positional elements; `map-remove` removing
+                   exactly the keys `==` to the probe,
+    `Sw.beforeFix` the tree before those three repairs (after D6/D20),
+    `Sw.pinned`    the tree as first found (D6, D20).
+  Every theorem is stated for an arbitrary `sw` with `sw.canon = true` on the values `inScope sw`
+  admits — for `now`/`spec` that is every value (`C09_inScope_now`), so the `…_now` corollaries
+  carry no scope condition.  The `C09_asFound_before_fix_…` / `C09_asFound_pinned_…` theorems are
+  kernel-checked witnesses that the older variants violated the property (all repaired in /repo;
+  the inputs are regression cases of tools/props/c09.py).
 
-  Guards (all decidable, all shown satisfiable by the `example`s):
+  Guards (all decidable, all shown satisfiable by the `example`s, all necessary):
     `noNaN v`    no NaN inside (NaN ≠ NaN in Sass, see `C09_veq_nan_false`)
     `mapWf sw v` the keys of every map inside are pairwise not `==` (every map grass can build is;
                  preservation theorems below) — without it `SassMap::eq` is not symmetric
+                 (`C09_mapWf_needed`)
     `inRange v`  colour channels ≤ 255 and alpha ≤ 1 (what the colour constructors clamp to; above
                  that `Rgb::eq` treats all values as equal, which is not transitive together with
-                 the fuzzy comparison)
+                 the fuzzy comparison, `C09_inRange_needed`)
     `inScope sw v` see above.
 -/
 set_option linter.unusedSimpArgs false
 namespace Grass.Value
 
-/-- the full statement for the code as it stands (false: K1–K4 below; kept visible) -/
+/-- The full statement for the code as it stands, on the values grass can build (NaN-free for
+    reflexivity, colour channels in range, maps with pairwise unequal keys).  Proved at the end:
+    `C09_full_holds`. -/
 def C09_full : Prop :=
   (∀ a, noNaN a = true → veq .now a a = true) ∧
-  (∀ a b, mapWf .now a = true → mapWf .now b = true → veq .now a b = veq .now b a) ∧
-  (∀ a b c, veq .now a b = true → veq .now b c = true → veq .now a c = true) ∧
-  (∀ m k, contains .now (remove .now m k) k = false)
+  (∀ a b, inRange a = true → inRange b = true → mapWf .now a = true → mapWf .now b = true →
+      veq .now a b = veq .now b a) ∧
+  (∀ a b c, inRange a = true → inRange b = true → inRange c = true →
+      veq .now a b = true → veq .now b c = true → veq .now a c = true) ∧
+  (∀ a b, neOp .now a b = !(veq .now a b)) ∧
+  (∀ m k, contains .now (remove .now m k) k = false) ∧
+  (∀ es, literal .now es = none ↔ ¬ (es.map (·.1)).Pairwise (fun a b => veq .now a b = false))
 
 /-! ## `==` is an equivalence -/
 
@@ -89,7 +97,7 @@ example : let a := Value.num (.fin 1) .inch; let b := Value.num (.fin 96) .px
     inScope .spec a = true ∧ inScope .spec b = true ∧ inScope .spec c = true ∧
     inRange a = true ∧ mapWf .spec a = true ∧ veq .spec a b = true ∧ veq .spec b c = true := by
   decide +kernel
--- … and, for the code as it stands, a map with a list key against itself with another value order
+-- … and a map against itself with another entry order
 example : let a := Value.map (.cons (.str ['k'] false) (.num (.fin 1) .px) (.cons (.null) (.bool true) .nil))
     let b := Value.map (.cons (.null) (.bool true) (.cons (.str ['k'] true) (.num (.fin 1) .px) .nil))
     inScope .now a = true ∧ inScope .now b = true ∧ inRange a = true ∧ mapWf .now a = true ∧
@@ -127,9 +135,10 @@ theorem numNotEquals_eq (sw : Sw) (hc : sw.canon = true) (n1 n2 : Num) (u1 u2 : 
             simp [h, h']))
 
 mutual
-  /-- The second implementation of inequality, `Value::not_equals` (its only caller is
-      `SassMap::remove`), is the negation of `==` on values without argument lists whose
-      numbers carry non-convertible or canonical units.  (Outside: `C09_asFound_now_remove_…`.) -/
+  /-- The second implementation of inequality, `Value::not_equals` (deleted by /repo 61f3ffb;
+      its only caller was `SassMap::remove`), negated `==` only on values without argument lists
+      whose numbers carry non-convertible or canonical units.
+      (Outside: `C09_asFound_before_fix_remove_…`.) -/
   theorem C09_notEquals_eq_not_veq (sw : Sw) (hc : sw.canon = true) : ∀ (a b : Value),
       unitsCanon a = true → unitsCanon b = true → noArgList a = true → noArgList b = true →
       notEquals sw a b = !(veq sw a b)
@@ -236,8 +245,8 @@ theorem C09_remove_not_contains (sw : Sw) (hr : sw.removeEq = true) (m : VPairs)
   simp only [keeps, hr, if_true, Bool.not_eq_true'] at this
   simp [this]
 
-/-- For the code as it stands the same holds on values where `not_equals` negates `==`. -/
-theorem C09_remove_not_contains_now (sw : Sw) (hc : sw.canon = true) (m : VPairs) (key : Value)
+/-- For the variants that still went by `not_equals` the same held where that negates `==`. -/
+theorem C09_remove_not_contains_notEquals (sw : Sw) (hc : sw.canon = true) (m : VPairs) (key : Value)
     (h1 : unitsCanonP m = true) (h2 : unitsCanon key = true)
     (h3 : noArgListP m = true) (h4 : noArgList key = true) :
     contains sw (remove sw m key) key = false := by
@@ -401,50 +410,51 @@ theorem C09_asFound_pinned_units_not_transitive :
     veq .pinned px96 inch1 = true ∧ veq .pinned inch1 cmB = true ∧ veq .pinned px96 cmB = false := by
   decide +kernel
 
-/-- K1 (open): numbers of one unit are compared at that unit's scale, numbers of different
+/-- K1 (fixed in /repo since): numbers of one unit are compared at that unit's scale, numbers of different
     units at the canonical unit's: `1.000000000004in == 1in`, `1in == 96px`, but
     `1.000000000004in != 96px`. -/
-theorem C09_asFound_now_units_not_transitive :
-    veq .now inchB inch1 = true ∧ veq .now inch1 px96 = true ∧ veq .now inchB px96 = false := by
+theorem C09_asFound_before_fix_units_not_transitive :
+    veq .beforeFix inchB inch1 = true ∧ veq .beforeFix inch1 px96 = true ∧ veq .beforeFix inchB px96 = false := by
   decide +kernel
 
-/-- K2 (open): the `ArgList == List` arms ignore the list's brackets:
+/-- K2 (fixed in /repo since): the `ArgList == List` arms ignore the list's brackets:
     `[1, 2] == $args`, `$args == (1, 2)`, but `[1, 2] != (1, 2)`. -/
-theorem C09_asFound_now_arglist_brackets_not_transitive :
-    veq .now (l12 .comma true) args12 = true ∧ veq .now args12 (l12 .comma false) = true ∧
-    veq .now (l12 .comma true) (l12 .comma false) = false := by
+theorem C09_asFound_before_fix_arglist_brackets_not_transitive :
+    veq .beforeFix (l12 .comma true) args12 = true ∧ veq .beforeFix args12 (l12 .comma false) = true ∧
+    veq .beforeFix (l12 .comma true) (l12 .comma false) = false := by
   decide +kernel
 
-/-- K3 (open): keywords count between two argument lists but not against a list:
+/-- K3 (fixed in /repo since): keywords count between two argument lists but not against a list:
     `f(1, 2, $k: 1) == (1, 2)`, `(1, 2) == f(1, 2)`, but `f(1, 2, $k: 1) != f(1, 2)`. -/
-theorem C09_asFound_now_arglist_keywords_not_transitive :
-    veq .now args12k (l12 .comma false) = true ∧ veq .now (l12 .comma false) args12 = true ∧
-    veq .now args12k args12 = false := by
+theorem C09_asFound_before_fix_arglist_keywords_not_transitive :
+    veq .beforeFix args12k (l12 .comma false) = true ∧ veq .beforeFix (l12 .comma false) args12 = true ∧
+    veq .beforeFix args12k args12 = false := by
   decide +kernel
 
-/-- K4 (open): `SassMap::remove` uses `not_equals`, which still converts the right operand
+/-- K4 (fixed in /repo since): `SassMap::remove` uses `not_equals`, which still converts the right operand
     into the left one's unit: `map-remove((1in: x), 2.54000000001cm)` is `()` although
     `1in != 2.54000000001cm` and `map-get`/`map-has-key` do not find the key … -/
-theorem C09_asFound_now_remove_unequal_key :
-    veq .now inch1 cmB = false ∧ get .now (.cons inch1 strX .nil) cmB = none ∧
-    (remove .now (.cons inch1 strX .nil) cmB).length = 0 := by
+theorem C09_asFound_before_fix_remove_unequal_key :
+    veq .beforeFix inch1 cmB = false ∧ get .beforeFix (.cons inch1 strX .nil) cmB = none ∧
+    (remove .beforeFix (.cons inch1 strX .nil) cmB).length = 0 := by
   decide +kernel
 
 /-- … and treats a list as unequal to every argument list:
     `map-remove(((1, 2): x), $args)` keeps the key although `(1, 2) == $args` and `map-get` finds it. -/
-theorem C09_asFound_now_remove_keeps_equal_key :
-    veq .now (l12 .comma false) args12 = true ∧
-    (get .now (.cons (l12 .comma false) strX .nil) args12).isSome = true ∧
-    (remove .now (.cons (l12 .comma false) strX .nil) args12).length = 1 := by
+theorem C09_asFound_before_fix_remove_keeps_equal_key :
+    veq .beforeFix (l12 .comma false) args12 = true ∧
+    (get .beforeFix (.cons (l12 .comma false) strX .nil) args12).isSome = true ∧
+    (remove .beforeFix (.cons (l12 .comma false) strX .nil) args12).length = 1 := by
   decide +kernel
 
-/-- None of these survives in the specified variant (instances of the theorems above). -/
-theorem C09_spec_repairs_witnesses :
-    veq .spec inchB inch1 = false ∧
-    veq .spec (l12 .comma true) args12 = false ∧
-    veq .spec args12k args12 = true ∧
-    (remove .spec (.cons inch1 strX .nil) cmB).length = 1 ∧
-    (remove .spec (.cons (l12 .comma false) strX .nil) args12).length = 0 := by
+/-- None of these survives in the code as it stands (instances of the theorems above). -/
+theorem C09_now_repairs_witnesses :
+    veq .now inchB inch1 = false ∧
+    veq .now (l12 .comma true) args12 = false ∧
+    veq .now args12k args12 = true ∧
+    (remove .now (.cons inch1 strX .nil) cmB).length = 1 ∧
+    (remove .now (.cons (l12 .comma false) strX .nil) args12).length = 0 ∧
+    veq .now (l12 .comma false) args12 = true ∧ veq .now args12 (l12 .comma false) = true := by
   decide +kernel
 
 /-- Without `mapWf` map equality is not symmetric (why the guard is there):
@@ -463,34 +473,35 @@ theorem C09_inRange_needed :
     veq .spec (c ((254999999999999 : Rat) / 1000000000000)) (c 256) = false := by
   decide +kernel
 
-/-! ## the code as it stands: what is proved, what is refuted -/
+/-! ## the code as it stands -/
 
-/-- `Sw.now`, symmetric — PARTIAL: only for values without argument lists whose convertible
-    numbers carry the canonical unit (missing: nothing for symmetry itself — with argument lists
-    it still holds — but the scope is kept equal to that of transitivity). -/
-theorem C09_veq_symm_now_partial (a b : Value)
-    (ha : noArgList a = true) (hb : noArgList b = true) (ua : unitsCanon a = true) (ub : unitsCanon b = true)
-    (ra : inRange a = true) (rb : inRange b = true)
-    (wa : mapWf .now a = true) (wb : mapWf .now b = true) :
-    veq .now a b = veq .now b a :=
-  C09_veq_symm .now rfl a b (by simp [inScope, ha, ua]) (by simp [inScope, hb, ub]) ra rb wa wb
+/-- Every value is in scope of the code as it stands. -/
+theorem C09_inScope_now (v : Value) : inScope .now v = true := by simp [inScope, Sw.now]
 
-/-- `Sw.now`, transitive — PARTIAL: same scope; outside it transitivity is false
-    (`C09_asFound_now_units_not_transitive`, `…_arglist_brackets_…`, `…_arglist_keywords_…`). -/
-theorem C09_veq_trans_now_partial (a b c : Value)
-    (ha : noArgList a = true) (hb : noArgList b = true) (hc : noArgList c = true)
-    (ua : unitsCanon a = true) (ub : unitsCanon b = true) (uc : unitsCanon c = true)
+/-- `Sw.now`, symmetric on all values grass can build (argument lists included). -/
+theorem C09_veq_symm_now (a b : Value) (ra : inRange a = true) (rb : inRange b = true)
+    (wa : mapWf .now a = true) (wb : mapWf .now b = true) : veq .now a b = veq .now b a :=
+  C09_veq_symm .now rfl a b (C09_inScope_now a) (C09_inScope_now b) ra rb wa wb
+
+/-- `Sw.now`, transitive on all values grass can build (argument lists, every unit). -/
+theorem C09_veq_trans_now (a b c : Value)
     (ra : inRange a = true) (rb : inRange b = true) (rc : inRange c = true)
     (h1 : veq .now a b = true) (h2 : veq .now b c = true) : veq .now a c = true :=
-  C09_veq_trans .now rfl a b c (by simp [inScope, ha, ua]) (by simp [inScope, hb, ub])
-    (by simp [inScope, hc, uc]) ra rb rc h1 h2
+  C09_veq_trans .now rfl a b c (C09_inScope_now a) (C09_inScope_now b) (C09_inScope_now c) ra rb rc h1 h2
 
-/-- The full statement for the code as it stands is false (kernel-checked): `==` is not
-    transitive (K1) — which is why the theorems above carry `inScope`. -/
-theorem C09_full_refuted : ¬ C09_full := by
-  intro h
-  have := h.2.2.1 inchB inch1 px96 (by decide +kernel) (by decide +kernel)
-  revert this
+example : inRange args12k = true ∧ mapWf .now args12k = true ∧ inRange inchB = true ∧
+    veq .now args12k (l12 .comma false) = true ∧ veq .now (l12 .comma false) args12 = true := by
   decide +kernel
+
+/-- The full statement holds of the code as it stands.  (It was refuted before the K1/K2/K4
+    repairs: `C09_asFound_before_fix_…`.  What remains false without its guard is only what no
+    Sass program can build: `C09_mapWf_needed`, `C09_inRange_needed`, and NaN.) -/
+theorem C09_full_holds : C09_full :=
+  ⟨fun a h => C09_veq_refl .now a h,
+   fun a b ra rb wa wb => C09_veq_symm_now a b ra rb wa wb,
+   fun a b c ra rb rc h1 h2 => C09_veq_trans_now a b c ra rb rc h1 h2,
+   fun a b => C09_ne_eq_not_veq .now a b,
+   fun m k => C09_remove_not_contains .now rfl m k,
+   fun es => C09_literal_rejects_duplicates .now es⟩
 
 end Grass.Value
